@@ -68,8 +68,7 @@ func modules(cfg memasm.Config) (all []string, caches []string) {
 }
 
 // genAsm draws an assembly. class "leaf" = requester -> ideal / banked memory
-// modules only (the components whose traces are clean on the unchanged tree);
-// "any" = the whole composition grammar.
+// modules only; "any" = the whole composition grammar.
 func genAsm(r *hx.Rand, tier string, class string) input {
 	o := memasm.GenOpts{AllowROB: class != "leaf", NOps: 1}
 	pick := r.Pick(2, 3, 3)
@@ -184,9 +183,16 @@ func genAsm(r *hx.Rand, tier string, class string) input {
 		script = append(script, hist...)
 		script = append(script, traffic(per/2+1)...)
 	}
-	// the end of the history: every module enabled and reset, twice, top-down
+	// the end of the history: every module enabled and reset, first top-down, then
+	// bottom-up. After the bottom-up round nothing below a module is reset again,
+	// so a request that still trickles in from the agent's port buffers after the
+	// module's last reset completes normally.
 	for round := 0; round < 2; round++ {
-		for i, m := range all {
+		for i := range all {
+			m := all[i]
+			if round == 1 {
+				m = all[len(all)-1-i]
+			}
 			d := 0
 			if i == 0 {
 				d = 40
@@ -196,10 +202,7 @@ func genAsm(r *hx.Rand, tier string, class string) input {
 	}
 	cfg.Script = script
 	cfg.Agent.MaxInflight = 0
-	buf := !r.Chance(1, 4)
-	if class == "leaf" && cfg.Mem.Kind == "banked" {
-		buf = true
-	}
+	buf := !r.Chance(1, 8)
 	return input{Kind: "asm", Asm: &asmInput{Cfg: cfg, Buf: buf}}
 }
 
@@ -405,7 +408,7 @@ func genAPI(r *hx.Rand, tier string) input {
 // ------------------------------------------------------------ gen / shrink
 
 func gen(r *hx.Rand, tier string) []json.RawMessage {
-	nasm, nleaf, napi := 30, 40, 120
+	nasm, nleaf, napi := 50, 15, 100
 	if tier == "thorough" {
 		nasm, nleaf, napi = 400, 500, 1500
 	}
